@@ -215,9 +215,13 @@ def plan_tables(nodes, *, ntables_free=(), stale=(), newer_first=True, big_thres
                 # an entry that only exists in the stale copy
                 out.append(entry(T_INT, "ghost-entry", 0, 0, value_bytes(T_INT, 666)))
             return out
-        cur = {"idx": t, "seq": 7, "entries": encode(False)}
+        # sequence numbers are 16-bit counters: any pair with current > superseded, a lone table may carry any number (0 included)
+        sq = flag_rng.choice([(7, 3), (1, 0), (0xFFFF, 0x7FFF), (0x8000, 0x7FFF), (2, 1), (0xFFFF, 0)]) if flag_rng is not None else (7, 3)
+        if flag_rng is not None and t not in stale:
+            sq = (flag_rng.choice([7, 0, 0, 1, 0xFFFF]), None)
+        cur = {"idx": t, "seq": sq[0], "entries": encode(False)}
         if t in stale:
-            old = {"idx": t, "seq": 3, "entries": encode(True)}
+            old = {"idx": t, "seq": sq[1], "entries": encode(True)}
             tables += [cur, old] if newer_first else [old, cur]
         else:
             tables.append(cur)
